@@ -21,6 +21,7 @@ set_option linter.unusedTactic false
 set_option linter.unreachableTactic false
 
 set_option linter.unusedSimpArgs false
+set_option linter.unnecessarySeqFocus false
 
 namespace Boario.Gen
 open Boario
@@ -33,9 +34,9 @@ variable {d : Dims}
     indicator products and to `np.maximum` against masked assignment. -/
 macro "formula_cases" : tactic =>
   `(tactic| (
-      simp only [max_def, min_def, gt_iff_lt, ge_iff_le, ne_eq, ite_not, mul_ite, ite_mul, mul_one, mul_zero,
-        one_mul, zero_mul, add_zero, zero_add]
-      split_ifs <;>
+      (try simp only [max_def, min_def, gt_iff_lt, ge_iff_le, ne_eq, ite_not, mul_ite, ite_mul, mul_one, mul_zero,
+        one_mul, zero_mul, add_zero, zero_add]) <;>
+      (try split_ifs) <;>
         first
           | rfl
           | ring1
@@ -87,6 +88,36 @@ theorem cons_base_is_code (p : Params d) (x : Ind d → Rat) (s : Fin d.n) (f : 
     calc_inventory_constraints_base (x f) (p.a s f) (durOrZero p s) = cons p x s f := by
   simp only [calc_inventory_constraints_base, cons, hpsi] <;>
     (first | rfl | ring1)
+
+/-- one cell of `distributed_production` in the source is the model's `deliverCell` (demand / row total × production,
+    0 for a row without demand). -/
+theorem deliverCell_is_code (tot prod cell : Rat) : delivery_cell cell tot prod = deliverCell tot prod cell := by
+  simp only [delivery_cell, deliverCell, safeDiv] <;>
+    formula_cases
+
+/-- every delivery of the step is the code's cell formula applied to the fresh row total. -/
+theorem deliveries_are_code (e : Econ d) (i j : Ind d) (c : Fd d) :
+    (deliveries e).orders i j = delivery_cell (e.orders i j) (rowTot e.orders e.fd e.reb i) (e.prod i) ∧
+    (deliveries e).fd i c = delivery_cell (e.fd i c) (rowTot e.orders e.fd e.reb i) (e.prod i) := by
+  constructor <;> (rw [deliverCell_is_code]; rfl)
+
+/-- `stock_use` of the source is the model's `stockUse`. -/
+theorem stockUse_is_code (p : Params d) (prod : Ind d → Rat) (s : Fin d.n) (f : Ind d) :
+    stock_use_cell (prod f) (p.a s f) = stockUse p prod s f := by
+  simp only [stock_use_cell, stockUse] <;>
+    (first | rfl | ring1)
+
+/-- the inventory update of the source is the model's `stockUpdated`. -/
+theorem stockUpdated_is_code (p : Params d) (e : Econ d) (dl : Ind d → Ind d → Rat) (s : Fin d.n) (f : Ind d) :
+    stock_update_cell (e.stock s f) (stock_use_cell (e.prod f) (p.a s f)) (stockAdd dl s f) = stockUpdated p e dl s f := by
+  simp only [stock_update_cell, stock_use_cell, stockUpdated, stockUse] <;>
+    (first | rfl | ring1)
+
+/-- the reconstruction ledger after delivery is the model's `subBlock`, cell by cell. -/
+theorem subBlock_is_code (b c : RebBlock d) (i j : Ind d) (cc : Fd d) :
+    (subBlock b c).indus i j = rebuild_demand_cell (b.indus i j) (c.indus i j) ∧
+    (subBlock b c).house i cc = rebuild_demand_cell (b.house i cc) (c.house i cc) := by
+  constructor <;> (simp only [subBlock, rebuild_demand_cell] <;> (first | rfl | ring1))
 
 /-- a masked cap `r[r > 1] = 1` is `min 1 r` -/
 theorem cap_eq_min (q : Rat) : (if q > 1 then (1 : Rat) else q) = min 1 q := by
